@@ -54,6 +54,33 @@ PINS = {
     "nb_dot": ("util", "_nb_dot"),
     "bools_to_categorical": ("util", "bools_to_categorical"),
     "pretty_cut": ("util", "pretty_cut"),
+    # the pandas-style facade (C17)
+    "dataframe_from_by_keys": ("api", "DataFrameGroupBy._from_by_keys"),
+    "series_from_by_keys": ("api", "SeriesGroupBy._from_by_keys"),
+}
+
+# property -> the pins its models transcribe (a change to one of these functions must be carried over into the model of
+# exactly these properties)
+BY_PROPERTY = {
+    "C01": ["group_by_reduce", "apply_group_method_single_chunk", "group_func_wrap", "build_target_for_groupby", "apply_gb_reduction"],
+    "C02": ["combine_factorizations", "monotonic_factorization", "build_group_sorted_indexer"],
+    "C03": ["chunk_groupby_args", "reduce_array_pair", "combine_chunk_results", "apply_across_chunked_keys"],
+    "C04": ["group_by_reduce", "apply_group_method_single_chunk", "chunk_groupby_args", "reduce_array_pair", "combine_chunk_results", "group_func_wrap",
+            "build_target_for_groupby", "group_mean"],
+    "C05": ["group_func_wrap", "apply_cumulative", "rolling_max_or_min_1d", "rolling_shift_or_diff_1d", "ema_grouped", "ema_grouped_timed"],
+    "C06": ["group_by_reduce", "cumulative_reduce", "rolling_max_or_min_1d", "rolling_shift_or_diff_1d", "ema_grouped", "ema_grouped_timed", "find_nth",
+            "find_first_or_last_n"],
+    "C07": ["apply_gb_reduction"],
+    "C08": ["cumulative_reduce", "apply_cumulative"],
+    "C09": ["rolling_max_or_min_1d", "min_or_max_and_position", "rolling_shift_or_diff_1d"],
+    "C10": ["ema_adjusted", "ema_time_weighted", "ema_grouped", "ema_grouped_timed"],
+    "C11": ["apply_gb_reduction"],
+    "C12": ["group_func_wrap"],
+    "C15": ["find_nth", "find_first_or_last_n"],
+    "C16": ["groupby_var"],
+    "C17": ["dataframe_from_by_keys", "series_from_by_keys"],
+    "C18": ["validate_lengths_and_indexes", "preprocess_arguments", "check_data_inputs_aligned"],
+    "C20": ["nb_reduce", "reduce_1d", "nb_dot", "bools_to_categorical", "pretty_cut"],
 }
 
 
